@@ -9,6 +9,7 @@ import hashlib
 import json
 import math
 import random
+import re
 
 UNIT_FACTOR = {'seconds': 1, 'minutes': 60, 'hours': 3600}
 
@@ -55,6 +56,25 @@ class StepView(object):
     def edges(self, oname):
         wf = self.sc['wfs'][self.obs[oname]['wf']]
         return [(int(u), int(v), vol) for u, v, vol in wf['edges']]
+
+
+_TRAIL = re.compile(r'(\d+)$')
+
+
+def node_of_tid(tid):
+    """Workflow node number of a task id ``<observation>_<clock>_<node label>`` (labels are ints or 'n<int>')."""
+    try:
+        m = _TRAIL.search(tid.rsplit('_', 1)[1])
+        return int(m.group(1)) if m else None
+    except Exception:
+        return None
+
+
+def node_label(wf, n):
+    """What the workflow file calls node ``n``: the integer itself, or a name such as 'n3' (legal: ids are only
+    ever converted with str())."""
+    lab = wf.get('label')
+    return int(n) if not lab else '%s%d' % (lab, int(n))
 
 
 def wf_nodes(wf):
@@ -165,8 +185,8 @@ def gen(seed, profile='general', big=False):
     unit = pick('unit', {'seconds': 60, 'custom': 20, 'minutes': 10, 'hours': 10})
     if unit == 'custom':
         unit = rng.randint(2, 7)
-        if rng.random() < P.get('big_units', 0.0):
-            unit = rng.choice([10, 12, 30, 49, 75, 90, 150, 300, 900])
+        if rng.random() < P.get('big_units', 0.15):
+            unit = rng.choice([10, 12, 30, 49, 75, 90, 150, 300, 600, 900])
     k = unit_factor(unit)
 
     nm = pick('nm', {1: 8, 2: 22, 3: 25, 4: 20, 5: 15, 6: 10})
@@ -181,13 +201,25 @@ def gen(seed, profile='general', big=False):
             machines['m%d' % i] = {'flops': f0, 'compute_bandwidth': b0}
     ref = machines['m0']
     cpu_ref, bw_ref = ref['flops'] * k, ref['compute_bandwidth'] * k
+    if rng.random() < P.get('numeric_ids', 0.12):
+        # purely numeric machine names, not zero-based (legal: ids are dictionary keys of the configuration)
+        machines = {str(i + 1): machines['m%d' % i] for i in range(nm)}
+    machine_order = None
+    if nm > 1 and rng.random() < P.get('shuffle_machines', 0.25):
+        # the configuration need not list the machines in name order
+        machine_order = list(machines)
+        rng.shuffle(machine_order)
 
     arrays = rng.randint(1, 4)
     max_ingest = rng.randint(1, nm)
     nobs = pick('nobs', {1: 25, 2: 40, 3: 25, 4: 10})
     hot_rate = rng.choice([2, 5, 10])
     cold_rate = rng.choice([1, 2, 5, 10, 20])
-    pattern = pick('pattern', {'gaps': 25, 'b2b': 25, 'simul': 20, 'overlap': 30})
+    pattern = pick('pattern', {'gaps': 25, 'b2b': 25, 'simul': 18, 'overlap': 27, 'crowd': 5})
+    crowd_gap = 0
+    if pattern == 'crowd':
+        nobs = max(nobs, rng.choice([4, 4, 5]))
+        crowd_gap = rng.choice([0, 1, 1, 2, 3])
 
     obs = []
     t = rng.choice([0, 0, 1, 3])
@@ -198,12 +230,23 @@ def gen(seed, profile='general', big=False):
         names = pool[:nobs]
     for i in range(nobs):
         dur = pick('dur', {1: 15, 2: 19, 3: 19, 4: 14, 5: 10, 6: 7, 7: 5, 8: 5, 9: 3, 10: 3})
+        if rng.random() < P.get('long_dur', 0.04):
+            dur = rng.choice([14, 15, 28, 31])
+        if k >= 10 and rng.random() < P.get('float_dur', 0.35):
+            # durations whose conversion to timesteps is sensitive to how the division is written
+            # (x * (1 / k) != x / k in floating point for these)
+            cand = [d_ for d_ in range(1, 32) if (d_ * k) * (1.0 / k) != d_]
+            if cand:
+                dur = rng.choice(cand[:6])
         if i == 0:
             start = t
         elif pattern == 'gaps':
             start = t + rng.randint(1, 12)
         elif pattern == 'b2b':
             start = t
+        elif pattern == 'crowd':
+            # all but the first fall due in the same timestep, while the first one's workflow keeps machines busy
+            start = obs[0]['_s'] + obs[0]['_d'] + crowd_gap
         elif pattern == 'simul':
             start = obs[-1]['_s'] if rng.random() < 0.7 else t
         else:
@@ -221,17 +264,33 @@ def gen(seed, profile='general', big=False):
         t = max(t, start + dur)
     if rng.random() < P.get('zero_rate', 0.06):
         rng.choice(obs)['data_product_rate'] = 0          # an observation that produces no data (legal)
-    if P.get('subarray') or rng.random() < 0.3:
+    if pattern == 'crowd':
+        # three or more observations due together that fit the telescope together; whether the machines and the
+        # ingest limit suffice for all of them is left to chance
+        arrays = max(arrays, nobs)
+        left = arrays
+        for i, o in enumerate(obs):
+            o['instrument_demand'] = 1 if rng.random() < 0.7 else rng.randint(1, max(1, left - (nobs - 1 - i)))
+            left -= o['instrument_demand']
+        if rng.random() < 0.6:
+            max_ingest = nm
+        for o in obs:
+            o['ingest_demand'] = rng.randint(1, max(1, min(max_ingest, 2)))
+    elif P.get('subarray') or rng.random() < 0.3:
         # overlapping sub-array observations: demands that fit together
         for o in obs:
             o['instrument_demand'] = rng.randint(1, max(1, arrays // 2))
-    if rng.random() < P.get('small_ingest', 0.35):
+    if pattern != 'crowd' and rng.random() < P.get('small_ingest', 0.35):
         for o in obs:
             o['ingest_demand'] = 1
+    if rng.random() < P.get('frac_rate', 0.08):
+        # a data rate that is not a whole number (the configuration parser rounds rate x unit to a whole amount)
+        x = rng.choice([0.4, 1.3, 2.7, 1.0 / 3, 4.6])
+        rng.choice(obs)['data_product_rate'] = x if round(x * k) <= hot_rate * k else 0.4
 
-    vols = [o['data_product_rate'] * k * o['_d'] for o in obs]
+    vols = [round(o['data_product_rate'] * k) * o['_d'] for o in obs]
     regime = pick('buffer', {'ample': 85, 'wait': 7, 'tight': 5, 'over': 3})
-    vmax, vsum = max(vols), sum(vols)
+    vmax, vsum = max(max(vols), 1), max(sum(vols), 1)
     if regime == 'ample':
         hot_cap = int(vsum / rng.choice([0.2, 0.4, 0.55])) + 1
     elif regime == 'wait':
@@ -279,7 +338,10 @@ def gen(seed, profile='general', big=False):
             nodes[j] = [perm[j], cm * cpu_ref, None if dm is None else dm * bw_ref]
         nodes = [nodes[j] for j in order]
         edges = [[perm[u], perm[v], rng.choice([0, 0.3, 1, 2.5, 4]) * bw_ref] for u, v in _dag(rng, n, shape)]
-        wfs.append({'nodes': nodes, 'edges': edges})
+        wf = {'nodes': nodes, 'edges': edges}
+        if rng.random() < P.get('named_nodes', 0.2):
+            wf['label'] = 'n'           # node ids are names ('n3'), not integers
+        wfs.append(wf)
     for o in obs:
         if o['wf'] >= len(wfs):
             o['wf'] = 0
@@ -332,6 +394,8 @@ def gen(seed, profile='general', big=False):
                 faults['stalls'][o['name']] = sorted(rng.sample(range(0, 12), rng.randint(1, 4)))
     if rng.random() < fk.get('F4', 0):
         faults['perm'] = {'seed': rng.randint(0, 10 ** 6)}
+    if pairing == 'batch' and rng.random() < P.get('norelease', 0.25):
+        faults['norelease'] = True      # legal user algorithm: reserves, leaves the release to the Scheduler
     if rng.random() < P.get('overrun', 0.0):
         faults['overrun'] = rng.choice([1, 2, 4])      # timesteps simulated after the run has completed
 
@@ -342,6 +406,7 @@ def gen(seed, profile='general', big=False):
           'hot': {'capacity': hot_cap, 'max_ingest_rate': hot_rate},
           'cold': {'capacity': cold_cap, 'max_data_rate': cold_rate},
           'obs': obs, 'wfs': wfs, 'pairing': pairing, 'alg_params': ap, 'static': static,
+          'machine_order': machine_order,
           'faults': faults, 'monitor': P.get('monitor', 'light'),
           'meta': {'profile': profile, 'seed': str(seed), 'regime': regime, 'pattern': pattern}}
     return sc
@@ -355,7 +420,7 @@ PROFILES = {
             'buffer': {'ample': 95, 'wait': 5}, 'nm': {2: 20, 3: 30, 4: 25, 5: 15, 6: 10},
             'nobs': {2: 40, 3: 40, 4: 20}, 'pattern': {'b2b': 30, 'overlap': 50, 'simul': 20},
             'small_ingest': 0.7},
-    'contend': {'nobs': {2: 35, 3: 40, 4: 25}, 'pattern': {'overlap': 45, 'b2b': 35, 'simul': 20},
+    'contend': {'nobs': {2: 35, 3: 40, 4: 25}, 'pattern': {'overlap': 40, 'b2b': 30, 'simul': 18, 'crowd': 12},
                 'buffer': {'ample': 85, 'wait': 10, 'tight': 5}, 'subarray': True,
                 'small_ingest': 0.6,
                 'faults': {'F1': 0.4, 'F3': 0.15, 'F4': 0.45}},
@@ -369,14 +434,14 @@ PROFILES = {
              'buffer': {'ample': 90, 'wait': 10},
              'faults': {'F1': 0.4, 'F3': 0.15, 'F4': 0.4}},
     'live': {'buffer': {'ample': 50, 'wait': 25, 'tight': 15, 'over': 10},
-             'pattern': {'gaps': 15, 'b2b': 25, 'simul': 30, 'overlap': 30},
+             'pattern': {'gaps': 15, 'b2b': 22, 'simul': 25, 'overlap': 26, 'crowd': 12},
              'faults': {'F1': 0.35, 'F3': 0.2, 'F4': 0.3}},
     'buffer': {'buffer': {'ample': 60, 'wait': 20, 'tight': 16, 'over': 4}, 'overrate': 0.06,
                'pattern': {'b2b': 30, 'overlap': 50, 'simul': 10, 'gaps': 10},
                'nobs': {2: 40, 3: 40, 4: 20}, 'faults': {'F1': 0.3, 'F4': 0.2}},
-    'real': {'monitor': 'real', 'overrun': 0.25, 'dur': {1: 20, 2: 25, 3: 25, 4: 15, 5: 15},
+    'real': {'monitor': 'real', 'overrun': 0.25, 'dur': {1: 20, 2: 25, 3: 25, 4: 15, 5: 15}, 'big_units': 0.4,
              'ntasks': {1: 20, 2: 25, 3: 25, 4: 15, 5: 15},
-             'unit': {'seconds': 80, 'custom': 10, 'minutes': 5, 'hours': 5},
+             'unit': {'seconds': 72, 'custom': 18, 'minutes': 5, 'hours': 5},
              'pattern': {'overlap': 45, 'b2b': 25, 'simul': 10, 'gaps': 20},
              'buffer': {'ample': 88, 'wait': 8, 'tight': 4},
              'faults': {'F1': 0.3, 'F1m': 0.15, 'F3': 0.0, 'F4': 0.25}},
@@ -392,6 +457,7 @@ PROFILES = {
               'dur': {1: 25, 2: 30, 3: 25, 4: 20}, 'unit': {'seconds': 90, 'custom': 10},
               'dists': ['normal', 'normal', 'poisson', 'uniform']},
     'units': {'unit': {'custom': 60, 'minutes': 20, 'hours': 20}, 'hetero': 0.0, 'frac_start': 0.0, 'big_units': 0.4, 'zero_rate': 0.0,
+              'frac_rate': 0.0,
               'comp': {1: 40, 2: 30, 3: 20, 4: 10},
               'dur': {1: 40, 2: 35, 3: 25}, 'buffer': {'ample': 95, 'wait': 5},
               'nobs': {1: 45, 2: 40, 3: 15}, 'ntasks': {1: 25, 2: 30, 3: 25, 4: 20},
